@@ -32,6 +32,10 @@ type C20Case struct {
 	HookYield map[string]int `json:"hook_yield"`
 	// NoWait: release groups without waiting for the previous one to be processed
 	NoWait bool `json:"no_wait"`
+	// Rendezvous: no map function returns before all N of them are running (map functions may depend on each other)
+	Rendezvous bool `json:"rendezvous,omitempty"`
+	// Nested: every map function runs an inner AsyncMapReduce over this many items (fan-out inside fan-out, as the executor does)
+	Nested int `json:"nested,omitempty"`
 }
 
 var c20Points = []string{"amr.worker.sendErr", "amr.worker.sendRes", "amr.reducer.loop", "amr.reducer.afterReduce",
@@ -63,7 +67,7 @@ func checkC20(c *C20Case) *ev.Failure {
 	reduceCalls := make([]int32, n)
 	var mapInflight, reduceInflight, maxReduceInflight int32
 	var processed int32 // results or errors consumed by the reducer goroutine
-	var reduceOnFailed int32
+	var reduceOnFailed, nestedBad int32
 	gates := make([]chan struct{}, n)
 	for i := range gates {
 		gates[i] = make(chan struct{})
@@ -101,6 +105,13 @@ func checkC20(c *C20Case) *ev.Failure {
 			defer atomic.AddInt32(&mapInflight, -1)
 			atomic.AddInt32(&mapCalls[i], 1)
 			<-gates[i]
+			if c.Nested > 0 {
+				inner := make([]int, c.Nested)
+				sum, ierr := common.AsyncMapReduce(inner, 0, func(int) (int, error) { runtime.Gosched(); return 1, nil }, func(a, v int) int { return a + v })
+				if ierr != nil || sum != c.Nested {
+					atomic.AddInt32(&nestedBad, 1)
+				}
+			}
 			if i < len(c.MapYield) {
 				yieldN(c.MapYield[i])
 			}
@@ -134,6 +145,19 @@ func checkC20(c *C20Case) *ev.Failure {
 			reduceInflight: atomic.LoadInt32(&reduceInflight), reduced: atomic.LoadInt32(&reducedCount)}
 	}()
 
+	if c.Rendezvous {
+		// all map functions must be able to run at the same time: wait until every one has been entered
+		deadline := time.Now().Add(5 * time.Second)
+		for atomic.LoadInt32(&mapInflight) < int32(n) {
+			if time.Now().After(deadline) {
+				for _, g := range gates {
+					close(g)
+				}
+				return ev.Failf("deadlock", "only %d of %d map functions were started within 5s although none of them has returned (map functions that wait for each other never finish)", atomic.LoadInt32(&mapInflight), n)
+			}
+			runtime.Gosched()
+		}
+	}
 	// scheduler: release groups in order
 	released := 0
 	for _, g := range c.Groups {
@@ -190,6 +214,9 @@ func checkC20(c *C20Case) *ev.Failure {
 			return ev.Failf("reduce-count", "reduce called %d times for item %d (failed=%v)", rc, i, c.Err[i])
 		}
 	}
+	if nestedBad != 0 {
+		return ev.Failf("acc", "%d nested calls inside map functions returned a wrong result", nestedBad)
+	}
 	if reduceOnFailed != 0 {
 		return ev.Failf("reduce-count", "reduce called for a failed item")
 	}
@@ -230,6 +257,10 @@ func genC20(t *rapid.T) *C20Case {
 		maxN = 12
 	}
 	n := rapid.IntRange(0, maxN).Draw(t, "n")
+	big := rapid.IntRange(0, 9).Draw(t, "big") == 0
+	if big {
+		n = rapid.SampledFrom([]int{40, 63, 64, 65, 100, 130, 200, 257}).Draw(t, "bign")
+	}
 	c := &C20Case{N: n, Err: make([]bool, n), ReduceYield: make([]int, n), MapYield: make([]int, n), HookYield: map[string]int{}}
 	for i := 0; i < n; i++ {
 		c.Err[i] = rapid.IntRange(0, 2).Draw(t, "err") == 0
@@ -251,6 +282,14 @@ func genC20(t *rapid.T) *C20Case {
 		}
 	}
 	c.NoWait = rapid.IntRange(0, 3).Draw(t, "nowait") == 0
+	c.Rendezvous = rapid.IntRange(0, 3).Draw(t, "rendezvous") == 0
+	if rapid.IntRange(0, 3).Draw(t, "nested") == 0 {
+		c.Nested = rapid.IntRange(1, 3).Draw(t, "nestedn")
+	}
+	if big {
+		// one group, released together: the fan-out is what matters here
+		c.Groups = [][]int{seq(n)}
+	}
 	return c
 }
 
@@ -279,12 +318,12 @@ func TestC20(t *testing.T) {
 		t.Fatal("C20 needs -tags verif")
 	}
 	rec := ev.Get("C20")
-	rec.Rule = "cases = (n, error pattern, completion order as release groups, yields in map/reduce callbacks and at the 9 hook points) drawn by rapid; non-trivial = n>=2 with at least one success and one failure; distinct by hash of the whole case. Plus exhaustive grid n<=4 x 2^n patterns x n! sequential completion orders (TestC20Grid)."
+	rec.Rule = "cases = (n in 0..8 [12 thorough], 10% n in {40..257}; error pattern; completion order as release groups; yields in map/reduce callbacks and at the 9 hook points; rendezvous: no map function returns before all are running; nested: every map function runs an inner AsyncMapReduce) drawn by rapid; non-trivial = n>=2 with at least one success and one failure; distinct by hash of the whole case. Plus exhaustive grid n<=4 x 2^n patterns x n! sequential completion orders (TestC20Grid)."
 	rapid.Check(t, func(t *rapid.T) {
 		c := genC20(t)
 		ev.Current("C20", c)
 		nt := c20Nontrivial(c)
-		cls := []string{fmt.Sprintf("n=%d", c.N)}
+		cls := []string{fmt.Sprintf("n=%d", minInt(c.N, 13))}
 		if c.NoWait {
 			cls = append(cls, "nowait")
 		}
@@ -293,6 +332,15 @@ func TestC20(t *testing.T) {
 		}
 		if len(c.Groups) < c.N {
 			cls = append(cls, "simultaneousGroup")
+		}
+		if c.Rendezvous {
+			cls = append(cls, "rendezvous")
+		}
+		if c.Nested > 0 {
+			cls = append(cls, "nestedFanOut")
+		}
+		if c.N >= 40 {
+			cls = append(cls, "n>=40")
 		}
 		rec.Case(ev.Hash(c), nt, cls...)
 		rec.Sample(nt, func() interface{} { return c })
